@@ -156,7 +156,13 @@ func absShapes() []absShape {
 	}
 }
 
-var newPaths = []string{"new", "new-in-function", "new-dynamic-name", "new-in-method", "new-static-factory", "new-self-factory"}
+var newPaths = []string{"new", "new-in-function", "new-dynamic-name", "new-in-method", "new-static-factory", "new-self-factory", "new-subclass"}
+
+// subclassRoute: shapes whose target, extended by an empty concrete subclass, is still
+// not instantiable (the subclass inherits the missing abstract method)
+func subclassRoute(sh absShape) bool {
+	return strings.HasPrefix(sh.name, "missing-") || sh.name == "abstract-class" || sh.name == "abstract-child-of-abstract" || sh.posOnly
+}
 
 func genAbstractCases(tf *TypeFixture) []*Case {
 	n := absNames{I: tf.I, J: tf.I + "x", A: tf.C, B: tf.K, M: tf.U, N: tf.T, P: tf.U + "p"}
@@ -164,6 +170,9 @@ func genAbstractCases(tf *TypeFixture) []*Case {
 	for _, sh := range absShapes() {
 		for _, np := range newPaths {
 			if (np == "new-static-factory" || np == "new-self-factory") && !sh.factory {
+				continue
+			}
+			if np == "new-subclass" && !subclassRoute(sh) {
 				continue
 			}
 			for _, complete := range []bool{false, true} {
@@ -177,46 +186,70 @@ func genAbstractCases(tf *TypeFixture) []*Case {
 	return out
 }
 
+// Every instantiation is attempted repeatedly in one process: the case's own route twice by
+// one site inside a loop and once by a copy of it, then `new $name` and a plain `new`, then
+// the own route once more. A negative shape must never yield an object, a positive one must
+// yield one every time.
 func (tf *TypeFixture) buildAbstractCase(n absNames, sh absShape, np string, complete bool) *Case {
 	var b strings.Builder
 	b.WriteString("<?php\n")
 	b.WriteString(sh.decls(n, complete))
 	tgt := sh.target(n)
 	newExpr := "new " + tgt + "()"
-	pre := ""
+	pre := "$cn0 = \"" + tgt + "\";\n"
 	switch np {
 	case "new-in-function":
 		fmt.Fprintf(&b, "function mkobj() { return new %s(); }\n", tgt)
 		newExpr = "mkobj()"
 	case "new-dynamic-name":
-		pre = "$cn = \"" + tgt + "\";\n"
+		pre += "$cn = \"" + tgt + "\";\n"
 		newExpr = "new $cn()"
 	case "new-in-method":
 		fmt.Fprintf(&b, "class Factory%d { public function mk() { return new %s(); } }\n", tf.Idx, tgt)
-		pre = fmt.Sprintf("$fa = new Factory%d();\n", tf.Idx)
+		pre += fmt.Sprintf("$fa = new Factory%d();\n", tf.Idx)
 		newExpr = "$fa->mk()"
 	case "new-static-factory":
 		newExpr = tgt + "::mk()"
 	case "new-self-factory":
 		newExpr = tgt + "::mks()"
+	case "new-subclass":
+		fmt.Fprintf(&b, "class Sub%d%s extends %s { }\n", tf.Idx, tgt, tgt)
+		newExpr = fmt.Sprintf("new Sub%d%s()", tf.Idx, tgt)
+	}
+	attempt := func(expr string) string {
+		return "$st = \"denied\"; $x = null;\ntry { $x = " + expr + "; $st = \"ok\"; } catch (\\Throwable $e) { $st = \"denied\"; }\n" +
+			"echo \"R|\", $st, \"|\", (is_object($x) ? \"object\" : \"noobject\"), \"\\n\";\n"
 	}
 	b.WriteString("echo \"START\\n\";\n" + pre)
-	b.WriteString("$st = \"denied\"; $x = null;\ntry { $x = " + newExpr + "; $st = \"ok\"; } catch (\\Throwable $e) { $st = \"denied\"; }\n")
-	b.WriteString("echo \"R|\", $st, \"|\", (is_object($x) ? \"object\" : \"noobject\"), \"\\n\";\necho \"END\\n\";\n")
+	b.WriteString(repeatBlock(attempt(newExpr)))
+	b.WriteString(attempt("new $cn0()"))
+	b.WriteString(attempt("new " + tgt + "()"))
+	b.WriteString(attempt(newExpr))
+	b.WriteString("echo \"END\\n\";\n")
+	const nAttempts = attempts + 3
 
 	idOf := func(complete bool) string {
 		return fmt.Sprintf("abstract/f%d/%s/%s/complete=%v", tf.Idx, sh.name, np, complete)
 	}
 	judge := func(o *Obs) (string, string) {
-		st := o.status()
 		if complete {
-			if st == "ok" && len(o.R) > 1 && o.R[1] == "object" && o.End {
-				return "", ""
+			if !o.End || len(o.RAll) != nAttempts {
+				return "block", fmt.Sprintf("a complete concrete class could not be instantiated %d times: exit=%d stderr=%.200s", nAttempts, o.Raw.Exit, o.Raw.Stderr)
 			}
-			return "block", fmt.Sprintf("a complete concrete class could not be instantiated: exit=%d stderr=%.200s", o.Raw.Exit, o.Raw.Stderr)
+			for i, r := range o.RAll {
+				if len(r) < 2 || r[0] != "ok" || r[1] != "object" {
+					return "block", fmt.Sprintf("a complete concrete class could not be instantiated (attempt %d): %v", i+1, r)
+				}
+			}
+			return "", ""
 		}
-		if st == "ok" || (len(o.R) > 1 && o.R[1] == "object") {
-			return "instantiated", "an object was created"
+		for i, r := range o.RAll {
+			if (len(r) > 0 && r[0] == "ok") || (len(r) > 1 && r[1] == "object") {
+				if i == 0 {
+					return "instantiated", "an object was created"
+				}
+				return "instantiated-on-retry", fmt.Sprintf("attempt %d created an object after attempt 1 had been refused and the error caught", i+1)
+			}
 		}
 		return "", ""
 	}
